@@ -16,6 +16,7 @@ let pkind_of (k : string) : pkind =
     | "ptr" | "ptrc" | "ptrv" | "ptrl" -> KPtr
     | "fn" -> KFn
     | "s1" -> KStruct s1_fields
+    | "s2" -> KStruct [KPtr; KInt ILLong; KInt ILong]
     | _ -> failwith ("bad param kind " ^ k)
 
 (* application-side value: pointers are given as offsets into the region (0 = null) *)
